@@ -317,10 +317,21 @@ impl Facts {
         frames.push(Vec::new());
     }
 
-    /// Commit (discard) the top-most undo frame
+    /// Commit the top-most undo frame. Its recorded entries are handed to the
+    /// enclosing frame (if any) so that rolling back the outer frame also undoes
+    /// the writes made inside the committed inner frame.
     pub fn commit_undo_frame(&self) {
         let mut frames = self.undo_frames.write().unwrap();
-        frames.pop();
+        if let Some(child) = frames.pop() {
+            if let Some(parent) = frames.last_mut() {
+                for entry in child {
+                    // The parent keeps its own (older) entry for a key it already recorded
+                    if !parent.iter().any(|e| e.key == entry.key) {
+                        parent.push(entry);
+                    }
+                }
+            }
+        }
     }
 
     /// Rollback the top-most undo frame, restoring prior values
